@@ -6,6 +6,7 @@ floor((p - min) / size), centroids, and u = fx X/Z + cx, v = fy Y/Z + cy.
 All functions take / return float64 numpy arrays.
 """
 import math
+import itertools
 import numpy as np
 
 INF = float("inf")
@@ -113,15 +114,43 @@ def voxel_groups(coords, voxel):
     return out
 
 
-def knn_filter(points, k, pdim, radius=None, ord=2, rel=1e-9):
+def tie_options(P, cols, order, s, k, rel, max_options=64):
+    """All admissible means for a row whose k-th / (k+1)-th neighbour distances (nearly) tie.
+
+    `s` = ascending distances of the candidate points `cols[order]` (the point itself included, distance 0).
+    The near-tie cluster is the maximal run of consecutive entries around positions k | k+1 whose successive
+    gaps are <= rel * magnitude; everything below the cluster must be selected, the remaining
+    k+1-(#below) points may be ANY subset of the cluster (the point itself is not forced: it is one of
+    the exactly coinciding points then).  Returns an (m, D) array of candidate means, or None when
+    there are more than max_options subsets (row left unasserted)."""
+    m = len(s)
+    lo = k
+    while lo > 0 and s[lo] - s[lo - 1] <= rel * s[lo]:
+        lo -= 1
+    hi = k + 1
+    while hi + 1 < m and s[hi + 1] - s[hi] <= rel * s[hi + 1]:
+        hi += 1
+    need = k + 1 - lo
+    T = order[lo:hi + 1]
+    if math.comb(len(T), need) > max_options:
+        return None
+    base = P[cols[order[:lo]]].sum(0)
+    return np.array([(base + P[cols[list(c)]].sum(0)) / (k + 1) for c in itertools.combinations(T, need)])
+
+
+def knn_filter(points, k, pdim, radius=None, ord=2, rel=1e-9, max_options=64):
     """Reference of knn_filter on one (N, D) cloud.
 
-    returns dict(mask, A, B, okA, okB):
+    returns dict(mask, A, B, okA, okB, optA, optB):
       mask  retained points (all, or #{j != i, d_ij <= radius} >= k)
-      A     rows = mean over {i} + k nearest neighbours among ALL points (for retained i, input order)
+      A     rows = mean over the k+1 nearest points (the point itself, distance 0, and its k nearest
+            neighbours) among ALL points (for retained i, input order)
       B     same with neighbours among RETAINED points only, or None if fewer than k+1 are retained
-      okA / okB  per-row flags: neighbour set determined (no near tie at the k-th neighbour; self is
-            strictly the nearest)."""
+      okA / okB  per-row flags: the set of the k+1 nearest is determined (no near tie between the
+            k-th and the (k+1)-th neighbour).  Exactly coinciding points are fine as long as that
+            boundary is clear: all zero-distance points are selected then, in whatever order.
+      optA / optB  per row: None (determined, or too many alternatives) or the array of the means
+            of every admissible resolution of the tie (see tie_options)."""
     P = np.asarray(points, dtype=np.float64)
     n = P.shape[0]
     d = pdist(P[:, :pdim], P[:, :pdim], ord)
@@ -129,24 +158,25 @@ def knn_filter(points, k, pdim, radius=None, ord=2, rel=1e-9):
     ret = np.nonzero(mask)[0]
 
     def rows(cols):
-        out, ok = [], []
+        out, ok, opts = [], [], []
         for i in ret:
             dd = d[i, cols]
             o = np.argsort(dd, kind="stable")
-            sel = o[:k + 1]
             s = dd[o]
-            good = cols[sel[0]] == i and (k + 1 >= len(s) or s[k + 1] - s[k] > rel * s[k + 1]) \
-                and (len(s) < 2 or s[1] > 0)
-            out.append(P[cols[sel]].mean(0))
+            good = k + 1 >= len(s) or s[k + 1] - s[k] > rel * s[k + 1]
+            out.append(P[cols[o[:k + 1]]].mean(0))
             ok.append(bool(good))
-        return (np.array(out).reshape(len(ret), P.shape[1]), np.array(ok, dtype=bool))
+            opts.append(None if good else tie_options(P, cols, o, s, k, rel, max_options))
+            if good and i not in cols[o[:k + 1]]:
+                raise AssertionError("reference: the point itself is not among its k+1 nearest")
+        return (np.array(out).reshape(len(ret), P.shape[1]), np.array(ok, dtype=bool), opts)
 
-    A, okA = rows(np.arange(n))
+    A, okA, optA = rows(np.arange(n))
     if len(ret) >= k + 1:
-        B, okB = rows(ret)
+        B, okB, optB = rows(ret)
     else:
-        B, okB = None, None
-    return {"mask": mask, "A": A, "B": B, "okA": okA, "okB": okB}
+        B, okB, optB = None, None, None
+    return {"mask": mask, "A": A, "B": B, "okA": okA, "okB": okB, "optA": optA, "optB": optB}
 
 
 def project(Pc, fx, fy, cx, cy):
